@@ -351,6 +351,9 @@ func (e *evaluator) unary(op string, x mval) (mval, nm.Status) {
 	}
 	switch op {
 	case "-":
+		if openNumeral(x.v) {
+			return mval{}, nm.Skip
+		}
 		v, st := nm.Unm(x.v)
 		return plain(v), st
 	case "~":
@@ -412,6 +415,9 @@ func (e *evaluator) binary(op string, l, r mval) (mval, nm.Status) {
 	}
 	switch op {
 	case "+", "-", "*", "/", "//", "%", "^":
+		if openNumeral(l.v) || openNumeral(r.v) {
+			return mval{}, nm.Skip
+		}
 		v, st := nm.Arith(op, l.v, r.v)
 		return plain(v), st
 	case "&", "|", "~", "<<", ">>":
@@ -429,6 +435,17 @@ func (e *evaluator) binary(op string, l, r mval) (mval, nm.Status) {
 		return plain(nm.S(ls + rs)), nm.Val
 	}
 	return mval{}, nm.Skip
+}
+
+// openNumeral: a string that is a numeral by the lexical rules but whose value
+// the manual leaves to the C library (outside the double range).  Arithmetic
+// on it is not judged.
+func openNumeral(v nm.V) bool {
+	if v.K != nm.Str {
+		return false
+	}
+	_, st := nm.StringToNumber(v.S)
+	return st == nm.Skip
 }
 
 func concatOperand(v nm.V) (string, nm.Status) {
